@@ -31,6 +31,9 @@ type c09Case struct {
 	// FailAll: every Write / Close fails, so each flush goes through its cleanup
 	// path (Abort, TombstoneFile), which is where the gate then sits
 	FailAll string `json:"fail_all,omitempty"`
+	// UniqueParts: a partition function whose ids never repeat (one per row):
+	// every flush carries partitions no other flush has
+	UniqueParts bool `json:"unique_parts,omitempty"`
 }
 
 func genC09() *rapid.Generator[c09Case] {
@@ -47,6 +50,7 @@ func genC09() *rapid.Generator[c09Case] {
 			StallMs:   pick(t, "stall", []int{150, 300}),
 			Procs:     pick(t, "procs", []int{0, 2, 4}),
 		}
+		c.UniqueParts = chance(t, "uniqueparts", 35)
 		if chance(t, "cleanupstall", 25) {
 			// the flush fails persistently and the store stalls inside the cleanup
 			// of that failure: still a stalled flush, still one at a time
@@ -88,6 +92,11 @@ func runC09Once(c c09Case) (accepted, answered, attempts, bound int, v *Violatio
 	cfg := EngCfg{Tokenizer: "default", Compression: "none", FPR: 0.01, RGRows: 100000, RGBytes: 1 << 30,
 		BufRows: c.BufRows, BufBytes: 1 << 30, BufTimeMs: c.BufTimeMs, IngestBuf: c.IngestBuf, QueryConc: 4,
 		Partition: "none", MaxFileSize: 10 << 30, MaxMerge: 10}
+	parts := 1
+	if c.UniqueParts {
+		cfg.Partition = "field"
+		parts = 1 << 30
+	}
 	ds := NewMemDataStore(false)
 	ms := bs.NewMemoryMetaStore()
 	tr := NewTrace(ds, ms)
@@ -117,7 +126,7 @@ func runC09Once(c c09Case) (accepted, answered, attempts, bound int, v *Violatio
 					return
 				default:
 				}
-				b := book.NewBatch("good", "buf", c.BatchRows, 1)
+				b := book.NewBatch("good", "buf", c.BatchRows, parts)
 				ctx, cancel := context.WithTimeout(bg, 5*time.Millisecond)
 				err := eng.IngestRows(ctx, b.Rows, b.Ch)
 				cancel()
